@@ -32,6 +32,7 @@ type c10Case struct {
 	WithData bool             `json:"with_data"`
 	Second   bool             `json:"second_failing_element"`
 	MaxBatch int              `json:"max_batch,omitempty"`           // downstream batches split into chunks of this size (0: default 3000)
+	Status   int              `json:"ok_status,omitempty"`           // mode errors: the services answer with this 2xx status instead of 200 (GraphQL over HTTP allows any 2xx for a well-formed answer)
 	LeadName string           `json:"lead_operation_name,omitempty"` // mode invalid: the mutant is the second entry of an HTTP batch whose first entry is a gateway-only operation of this name
 }
 
@@ -284,6 +285,7 @@ func (p c10) Gen(c *run.Ctx, idx int) (json.RawMessage, error) {
 	cs.WithData = r.Intn(3) == 0
 	cs.Second = r.Intn(8) == 0
 	cs.MaxBatch = []int{0, 0, 1, 2}[r.Intn(4)]
+	cs.Status = []int{0, 0, 0, 207, 203}[r.Intn(5)]
 	return mustJSON(cs), nil
 }
 
@@ -413,6 +415,9 @@ func (p c10) Exec(c *run.Ctx, idx int, raw json.RawMessage) []run.Result {
 	var targetCall int64 = -1
 	var tmu sync.Mutex
 	for _, s := range r2.Services {
+		if sp.Status != 0 {
+			s.OKStatus = sp.Status
+		}
 		s.FaultFn = func(cl *fake.Call) *fake.Fault {
 			if cl.Service.Name == target.svc && cl.SvcCall == target.n {
 				tmu.Lock()
@@ -440,6 +445,9 @@ func (p c10) Exec(c *run.Ctx, idx int, raw json.RawMessage) []run.Result {
 	}
 	hr := r2.Query(&sp.Op)
 	tags := map[string]bool{"fault:" + kind: true}
+	if sp.Status != 0 {
+		tags[fmt.Sprintf("status-%d", sp.Status)] = true
+	}
 	if sp.Second && target.sz >= 2 && pos != target.sz-1 {
 		tags["two-failing-elements-in-one-batch"] = true
 	}
